@@ -21,6 +21,8 @@ def pipeline_jobs(ctx, n):
                 fp = rng.choice([1, 2, 3, 4, 9])
                 reqs.append({"iface": iface, "split": rng.choice([0, 0, 0, 1, 2]), "shuffle": sh, "repeat": False, "file_parallelism": fp,
                              "process": rng.random() < 0.3 and iface != "tf", "hold": rng.random() < 0.5})
+                if iface == "tf" and rng.random() < 0.5:
+                    reqs[-1]["batch"] = rng.choice([2, 3, 5, 16])      # the last batch of a pass may be short; nothing may be dropped
         # the same interfaces with a fixed LCG seed and a known final shuffle: their output is then a function of the inputs,
         # compared element by element with the generated composition model (GenPipeline)
         for iface in iterlib.ifaces_for(spec):
